@@ -225,6 +225,17 @@ def run_vh(ctx, case):
     i = 0
     for _ in range(case["depth"] - 1):
         i = int(ds.refine_design(i)[-1])
+    n_pts = len(ds.points)
+    if not (len(ds.point_depths) == n_pts == len(ds.cells) == len(ds.confidence_regions)) or not (0 <= i < n_pts):
+        # the real design space's parallel arrays fell out of step while setting the case up: that is the
+        # property's own invariant (every node has a point, a cell, a depth and a region), not a harness matter
+        ctx.violation("vh-setup-arrays-out-of-step",
+                      "after refining, points / cells / point_depths / confidence_regions have different lengths "
+                      "or refine_design returned an invalid child index", case, kind="R",
+                      detail={"points": n_pts, "depths": len(ds.point_depths), "cells": len(ds.cells),
+                              "regions": len(ds.confidence_regions), "child": i})
+        ctx.case_done(case, True)
+        return
     if ds.point_depths[i] != case["depth"]:
         ctx.count("vh_depth_setup_differs_info")
     sc = case["scale"]
